@@ -20,6 +20,12 @@ CHECKS.update({
             "Bounded symbolic model checking / fault enumeration by solver: batches of <=2 (3) operations from canonical states, normal exit, exception after every operation, every commit write failing; root, db, ref counts and later behaviour compared with the specification.", X_NOTE, "4/C05"),
     "C06": ("X", "symbolic execution (CrossHair+z3): solver-exhausted one-step transitions and batches on pruning tries; db and ref counts compared with the oracle's exact live-node set and true counts",
             "Bounded symbolic model checking: exactness of the pruning database and of the reference counts is an inductive invariant checked for every pool operation / batch from every canonical state of the family (shared hashed subtrees, threshold values, no-op updates included).", X_NOTE, "4/C06"),
+    "C03": ("X", "symbolic execution (CrossHair+z3): symbolic proof key through get_proof/get_from_proof; forged proofs (withheld subsets, swaps, duplicates, foreign nodes, foreign root) chosen by symbolic ints and exhausted by the solver",
+            "Bounded symbolic model checking: completeness for a symbolic byte-string key on every trie of the family; soundness for every corruption of the bounded corruption grammar: result is BadTrieProof or the value the trie with the claimed root holds, and BadTrieProof whenever a hashed path node is withheld.", X_NOTE, "4/C03"),
+    "C08": ("X", "symbolic execution (CrossHair+z3): symbolic nibble path (and split position) through traverse / traverse_from on canonical and history-built tries, compared with an independent canonical-node oracle",
+            "Bounded symbolic model checking: for every trie of the family and a symbolic nibble path of length <= 8, traverse returns exactly the canonical node / blank / TraversedPartialPath description (incl. simulated node and raw body); traverse_from composes with traverse at every split position with <= 1 db read per hop.", X_NOTE, "4/C08"),
+    "C10": ("X", "symbolic execution (CrossHair+z3): symbolic successor query through NodeIterator.next; keys/items/values/nodes compared with the sorted contents and the canonical pre-order",
+            "Bounded symbolic model checking: next(k) equals the strict successor for a symbolic byte string k on every trie of the family; keys/items/values are exactly the sorted contents; nodes() is the pre-order of the canonical trie and agrees with traverse().", X_NOTE, "4/C10"),
 })
 NOT_YET = "check not built yet in this round (see DESIGN.md section 4 for the plan); not claimed"
 
